@@ -634,32 +634,44 @@ TSAN_ENV = {"TSAN_OPTIONS": "die_after_fork=0 exitcode=66 halt_on_error=1 report
 def c09_parts(tier, seed):
     T = "c10_sessions"
     q = tier == "quick"
+    DEEP = "D1;D2;D3;D4;D5;D6;D7;D8"
     if q:
         return [
-            P("tsan-default-all", T, "sched-tsan", ["--part", "explore", "--threads", "2,3", "--bound", 0, "--scripts", "S1;S2;S3;S4;S6;S7;S8;S9;S12;S14"], workers=10, env=TSAN_ENV, require=["schedules"], deadline_frac=0.9),
+            P("tsan-default-all", T, "sched-tsan", ["--part", "explore", "--threads", "2,3", "--bound", 0, "--scripts", "S1;S2;S3;S4;S5;S6;S7;S8;S9;S10;S11;S12;S13;S14;S15"], workers=10, env=TSAN_ENV, require=["schedules"], deadline_frac=0.9),
+            P("tsan-deep-default", T, "sched-tsan", ["--part", "explore", "--threads", "2", "--bound", 0, "--scripts", DEEP], workers=8, env=TSAN_ENV, require=["schedules"], deadline_frac=0.9),
+            P("tsan-deep-threads3", T, "sched-tsan", ["--part", "explore", "--threads", "3", "--bound", 0, "--scripts", "D2;D3;D4;D5;D8"], workers=5, env=TSAN_ENV, require=["schedules"], deadline_frac=0.9),
             P("tsan-bound1-options", T, "sched-tsan", ["--part", "explore", "--threads", "1", "--bound", 1, "--scripts", "S14"], workers=8, env=TSAN_ENV, require=["nontrivial"], deadline_frac=0.9),
+            P("tsan-bound1-threads2", T, "sched-tsan", ["--part", "explore", "--threads", "2", "--bound", 1, "--scripts", "S2"], workers=16, env=TSAN_ENV, require=["nontrivial"], deadline_frac=0.9),
             P("tsan-pools", T, "sched-tsan", ["--part", "pool", "--bound", 1, "--poolcap", 12], workers=4, env=TSAN_ENV, require=["schedules"], deadline_frac=0.9),
-            P("tsan-free", T, "sched-tsan", ["--part", "free", "--threads", "4,8", "--scripts", "S1;S2;S3;S5;S7;S14;S15", "--reps", 1], workers=4, env=TSAN_ENV, require=["schedules"], deadline_frac=0.9),
+            P("tsan-free", T, "sched-tsan", ["--part", "free", "--threads", "4,8", "--scripts", "S1;S2;S3;S5;S7;S14;S15;D1;D6", "--reps", 1], workers=6, env=TSAN_ENV, require=["schedules"], deadline_frac=0.9),
         ]
     return [
-        P("tsan-bound1-all", T, "sched-tsan", ["--part", "explore", "--threads", "2,3", "--bound", 1], workers=12, env=TSAN_ENV, require=["schedules"], deadline_frac=0.75),
-        P("tsan-bound1-options", T, "sched-tsan", ["--part", "explore", "--threads", "1,2", "--bound", 1, "--scripts", "S14;S15"], workers=4, env=TSAN_ENV, require=["nontrivial"], deadline_frac=0.75),
+        P("tsan-bound1-all", T, "sched-tsan", ["--part", "explore", "--threads", "2,3", "--bound", 1, "--scripts", "S1;S2;S3;S4;S5;S6;S7;S8;S9;S10;S11;S12;S13;S14;S15"], workers=16, env=TSAN_ENV, require=["schedules"], deadline_frac=0.8),
+        P("tsan-deep-default", T, "sched-tsan", ["--part", "explore", "--threads", "2,3,4", "--bound", 0, "--scripts", DEEP], workers=16, env=TSAN_ENV, require=["schedules"], deadline_frac=0.3),
+        P("tsan-deep-bound1", T, "sched-tsan", ["--part", "explore", "--threads", "2", "--bound", 1, "--scripts", "D5;D3"], workers=16, env=TSAN_ENV, require=["nontrivial"], deadline_frac=0.5),
+        P("tsan-bound1-options", T, "sched-tsan", ["--part", "explore", "--threads", "1,2", "--bound", 1, "--scripts", "S14;S15"], workers=8, env=TSAN_ENV, require=["nontrivial"], deadline_frac=0.6),
         P("tsan-pools", T, "sched-tsan", ["--part", "pool", "--bound", 1, "--poolcap", 200], workers=4, env=TSAN_ENV, require=["schedules"], deadline_frac=0.3),
-        P("tsan-free", T, "sched-tsan", ["--part", "free", "--threads", "2,4,8", "--reps", 3], workers=4, env=TSAN_ENV, require=["schedules"], deadline_frac=0.3),
+        P("tsan-free", T, "sched-tsan", ["--part", "free", "--threads", "2,4,8", "--scripts", "S1;S2;S3;S4;S5;S6;S7;S8;S9;S11;S14;S15;" + DEEP, "--reps", 3], workers=6, env=TSAN_ENV, require=["schedules"], deadline_frac=0.3),
     ]
 
 CHECKS["C09"] = dict(
     parts=c09_parts,
-    bound=dict(quick="default schedule of 10 scripts with Threads 2 and 3; delay bound 1 of the option-change script S14 (Threads 1); worker pools (proof-game filter with 3 workers, "
-                     "hash-table clear pool) scheduled default + 12 single deviations; free-running complement: 7 scripts x Threads 4, 8",
-               thorough="delay bound 1 for all scripts with Threads 2 and 3 under the deadline (forking a ThreadSanitizer process costs ~1 s; unfinished bounds are reported as exhaustive:false)"),
+    bound=dict(quick="default schedule of all 15 control scripts and of 8 scripts with real multi-threaded searches (depth 4-5, MultiPV, node limit, tablebase generation inside the hash table, "
+                     "ponderhit, Clear Hash / new game / thread-count change between searches, stop in mid-search) with Threads 2 (five of them also with Threads 3); delay bound 1 of S14 (Threads 1) and S2 (Threads 2); "
+                     "worker pools (proof-game filter with 3 workers, hash-table clear pool) default + 12 single deviations; free-running complement: 9 scripts x Threads 4, 8",
+               thorough="delay bound 1 for all 15 control scripts with Threads 2 and 3 and for two search scripts, deep scripts also with Threads 4, under the deadline (unfinished bounds are reported as exhaustive:false)"),
     technique="stateless model checking of the real code under the controlled scheduler with ThreadSanitizer's happens-before race detection applied to every explored schedule "
               "(scheduler hand-offs are invisible to it), plus a free-running sampling complement reported separately",
     level_text="Every explored schedule of the real engine threads is analysed by ThreadSanitizer's happens-before detector; because the scheduler's token hand-off uses raw futexes in an "
                "uninstrumented translation unit, only the program's own synchronisation orders accesses, so a missing lock or atomic is reported even though the threads are serialised.",
-    level_note="Trusted: ThreadSanitizer (gcc 12) and its interceptors; libstdc++ iostream internals are uninstrumented; searches inside sessions are tiny, so races deep inside the parallel "
-               "search are covered only by the free-running complement.",
-    **dict(C10_COMMON, oracle="no ThreadSanitizer report in any explored schedule (report text + schedule stored in the replay file); additionally the C10 oracles (deadlock, contract)"))
+    level_note="Trusted: ThreadSanitizer (gcc 12) and its interceptors; libstdc++ iostream internals and the network evaluation kernels (lib/texellib/nn/nneval.cpp: thread-owned accumulators and "
+               "read-only weights) are uninstrumented; multi-threaded searches are explored under the default schedule and single deviations only.",
+    **dict(C10_COMMON, oracle="no ThreadSanitizer report in any explored schedule (report text + schedule stored in the replay file); additionally the C10 oracles (deadlock, contract)",
+           alphabet=C10_COMMON["alphabet"] + "; additionally 8 scripts with real multi-threaded searches (D1-D8: depth 5 from the start position, MultiPV 3, on-demand tablebase generation inside a 16 MB "
+                    "hash table during go infinite, node limit, timed ponderhit, Clear Hash + ucinewgame between two depth-3 searches, Threads change between two depth-3 searches, stop in mid-search) "
+                    "and two worker-pool bodies (ProofGameFilter with 3 workers, TranspositionTable::clear on 2M entries)",
+           assumptions=C10_COMMON["assumptions"] + ["accesses made inside lib/texellib/nn/nneval.cpp (network kernels: per-thread accumulators, read-only weights) are invisible to the detector: "
+                    "that file is compiled without instrumentation in the ThreadSanitizer flavours, because its byte-wise loops made every search ~100 times slower and confined the check to toy searches"]))
 
 # ------------------------------------------------------------------------------------------ C05
 def c05_parts(tier, seed):
